@@ -569,10 +569,19 @@ def replay(path):
         if not recs:
             print("replay: no invariant violated")
             return 0
+        known = core.load_known()
+        prop = body["property"].split("-")[0]
+        rc = 0
         for sid, ln, inv, ev, ops in recs:
             print(f"replay: first violated invariant {inv} at event {ln}: {_evstr(ev)}")
-        print(f"VIOLATION property={body['property']} replay={path}")
-        return 1
+            k = core.match_known(prop, inv, ev, known)
+            if k is not None:
+                print(f"KNOWN-FINDING: property={prop} {k['id']}: {k['description']}")
+            else:
+                rc = 1
+        if rc:
+            print(f"VIOLATION property={prop} replay={path}")
+        return rc
     finally:
         shutil.rmtree(scratch, ignore_errors=True)
 
